@@ -438,7 +438,8 @@ def run_class_mutable(ctx: Ctx) -> RuleResult:
         if not attrs:
             continue
         bad: Dict[str, List[Tuple[FuncInfo, ast.AST, str]]] = {a: [] for a in attrs}
-        for kk in [k] + k.all_subclasses():
+        family = [k] + k.all_subclasses() + [b for b in k.mro() if b is not k]      # a base-class method run on an instance of k sees k's attribute
+        for kk in family:
             for m in kk.methods.values():
                 sn = m.self_name()
                 recv_ok = {sn, 'cls', kk.name, k.name} - {None}
@@ -468,4 +469,98 @@ def run_class_mutable(ctx: Ctx) -> RuleResult:
                             'every other instance and every later one' % (k.name, a, norm(x)[:80], how),
                             construct='class-container:%s.%s' % (k.name, a), props=props)
     res.require_instances(n, 3, 'class-level containers')
+    return res
+
+
+# ------------------------------------------------------------------------------------------------
+# R-GUARD-SAME-SET: `if x not in C[i]: C[j].add(x)` -- the set tested for "already there" is the set added to.
+def run_guard_same_set(ctx: Ctx) -> RuleResult:
+    repo = ctx.repo
+    res = RuleResult('R-GUARD-SAME-SET', 'a "not already in" test guards insertion into the same member of an indexed family of sets')
+    n = 0
+    n_fam = 0
+    for f in repo.functions.values():
+        if not f.module.name.startswith('lark') or f.module.name.startswith('lark.tools'):
+            continue
+        for st in f.body_nodes():
+            if not isinstance(st, ast.If):
+                continue
+            for c in ast.walk(st.test):
+                if not (isinstance(c, ast.Compare) and len(c.ops) == 1 and isinstance(c.ops[0], ast.NotIn)):
+                    continue
+                x, A = norm(c.left), c.comparators[0]
+                adds = [call for s_ in st.body for call in ast.walk(s_)
+                        if isinstance(call, ast.Call) and isinstance(call.func, ast.Attribute) and call.func.attr in ('add', 'append')
+                        and call.args and norm(call.args[0]) == x]
+                if not adds:
+                    continue
+                n += 1
+                if not isinstance(A, ast.Subscript):
+                    continue
+                fam = [a_ for a_ in adds if isinstance(a_.func.value, ast.Subscript) and norm(a_.func.value.value) == norm(A.value)]
+                if not fam:
+                    continue
+                ok = any(norm(a_.func.value) == norm(A) for a_ in fam)
+                n_fam += 1
+                res.ob('%s %s' % (f.module.loc(st), f.qual), '`%s not in %s` guards insertion into that same set' % (x, norm(A)), ok)
+                if not ok:
+                    res.finding(f, st, '`%s` is tested for membership in %s but inserted into %s: an element already present in the set added to is '
+                                'inserted again, or one that is only present elsewhere is dropped as a duplicate (lost Earley items = lost derivations)'
+                                % (x, norm(A), norm(fam[0].func.value)), construct='guard-other-set:%s' % norm(A.value))
+    res.require_instances(n_fam, 2, 'guarded insertions into a member of an indexed family')
+    return res
+
+
+# ------------------------------------------------------------------------------------------------
+# R-FLAG-DEFAULT: a keyword a caller passes only on one arm (`extra['k'] = V` under a condition, then `f(..., **extra)`) must differ
+# from the default the callee gives that parameter -- otherwise the other arm behaves like this one.
+def run_flag_default(ctx: Ctx) -> RuleResult:
+    repo = ctx.repo
+    res = RuleResult('R-FLAG-DEFAULT', 'a keyword passed only under a condition differs from the callee\'s default for it')
+    byname: Dict[str, List[FuncInfo]] = {}
+    for f in repo.functions.values():
+        byname.setdefault(f.name, []).append(f)
+    n = 0
+    for f in repo.functions.values():
+        if not f.module.name.startswith('lark') or f.module.name.startswith('lark.tools'):
+            continue
+        # dict locals splatted into a call
+        for call in f.body_nodes():
+            if not isinstance(call, ast.Call):
+                continue
+            for kw in call.keywords:
+                if kw.arg is not None or not isinstance(kw.value, ast.Name):
+                    continue
+                d = kw.value.id
+                init = [a for a in f.body_nodes() if isinstance(a, ast.Assign) and len(a.targets) == 1 and norm(a.targets[0]) == d
+                        and isinstance(a.value, ast.Dict) and not a.value.keys]
+                if len(init) != 1:
+                    continue
+                stores = [a for a in f.body_nodes() if isinstance(a, ast.Assign) and len(a.targets) == 1 and isinstance(a.targets[0], ast.Subscript)
+                          and norm(a.targets[0].value) == d and const_str(a.targets[0].slice) is not None and isinstance(a.value, ast.Constant)]
+                for st in stores:
+                    if not any(isinstance(a_, ast.If) for a_ in ancestors(st)):
+                        continue
+                    key, val = const_str(st.targets[0].slice), st.value.value
+                    # candidate callees: functions / constructors in the package taking a parameter of that name with a constant default
+                    defaults = []
+                    for g in repo.functions.values():
+                        a = g.node.args
+                        pos = list(a.posonlyargs) + list(a.args)
+                        for p_, dflt in list(zip(pos[len(pos) - len(a.defaults):], a.defaults)) + [(p_, d_) for p_, d_ in zip(a.kwonlyargs, a.kw_defaults) if d_ is not None]:
+                            if p_.arg == key and isinstance(dflt, ast.Constant):
+                                defaults.append((g, dflt.value))
+                    if not defaults:
+                        continue
+                    n += 1
+                    bad = [(g, v) for g, v in defaults if v == val and type(v) is type(val)]
+                    ok = not bad
+                    res.ob('%s %s' % (f.loc(st), f.qual), '%s[%r] = %r is set only under a condition; the callee default differs (%s)'
+                           % (d, key, val, sorted({repr(v) for _g, v in defaults})), ok)
+                    if not ok:
+                        g = bad[0][0]
+                        res.finding(g, g.node, 'parameter `%s` of %s defaults to %r, the very value %s passes only under a condition (%s): the '
+                                    'configurations that do not pass it now behave like the one that does' % (key, g.qual, val, f.qual, norm(st)),
+                                    construct='flag-default:%s' % key)
+    res.require_instances(n, 1, 'conditionally passed keywords')
     return res
